@@ -12,6 +12,7 @@ import (
 	"gorm.io/gorm/clause"
 	"gorm.io/gorm/logger"
 	"gorm.io/gorm/schema"
+	"gorm.io/gorm/utils/simhook"
 )
 
 // for Config.cacheStore store PreparedStmtDB key
@@ -268,6 +269,7 @@ func (db *DB) Session(config *Session) *DB {
 		if v, ok := db.cacheStore.Load(preparedStmtDBKey); ok {
 			preparedStmt = v.(*PreparedStmtDB)
 		} else {
+			simhook.Yield("session:prepared-stmt-miss")
 			preparedStmt = NewPreparedStmtDB(db.ConnPool)
 			db.cacheStore.Store(preparedStmtDBKey, preparedStmt)
 		}
